@@ -9,6 +9,11 @@ CHECKS = {
   text="The real Lexer runs under a cursor monitor (every cascade step recorded with cursor before/after and nodes appended) on every concatenation of <=k directive-fragment tokens (exhaustive; k=3 quick, k=4/5 thorough); a trace checker decides conservation (steps tile the source, every consumed character is in a node or is documented vanishing syntax, node positions convert back to their offsets). Rendered output is compared with an independent reference scanner for the literal/escape fragment and with by-construction expected output on random long documents. Termination/time is decided on CPU-time growth ratios of adversarial repetition families measured in child processes.",
   note="Trusted: the harness's own copy of the consumption grammar and reference scanner; time bound is the bounded restatement 'no super-polynomial growth on the listed families up to n=8k'. One open known finding (exponential tag-attribute regex).",
   technique="lexer cursor trace monitor + by-construction render oracle + CPU-time growth monitor"),
+ "C09": dict(
+  category="exploration", design_ref="DESIGN.md §2 C09",
+  text="Every URI of the stated segment/separator/leading alphabet (exhaustive up to 4 segments quick, 6 thorough) is looked up on real TemplateLookup objects over a fixture tree with canary files at every place a traversal could land, directly and through include/inherit/namespace/Namespace-API calls from callers at depth 0..3; a sys.addaudithook file-access monitor, the realpath of every returned Template.filename and a canary scan of the output decide containment.",
+  note="Trusted: os.path.realpath and the audit hook's coverage of open/mkdir/rename/remove/mkstemp/shutil events; symlinks and spellings outside the alphabet are not explored.",
+  technique="audit-hook file-access monitor + containment oracle over exhaustively enumerated URIs"),
  "C10": dict(
   category="exploration", design_ref="DESIGN.md §2 C10",
   text="Runtime oracle over the real filter functions: every code point (exhaustive), every string of length <=3 over the markup alphabet (exhaustive), random mixtures, and the same strings through compiled templates; outputs judged by independent reference decoders. Exhaustive enumeration of single code points is the natural bound for per-character escaping functions.",
